@@ -720,6 +720,7 @@ impl Check for MtGraphCheck {
         vec![
             "reference = same block code driven sequentially in topological order on large streams (blocks' own functions are C08/C10's business)".into(),
             "diamond branch skew is kept below capacity/4 (larger skews deadlock any bounded-buffer dataflow)".into(),
+            "packets (StreamToPdu max_size) are kept to at most half the stream capacity: VecToStream writes a vector in one piece and can never deliver one larger than its output stream (the hook-shrunk stream is the artefact, not the block: with the shipped 4 MB streams that is a packet of over a million samples)".into(),
             "sequentially consistent interleavings".into(),
         ]
     }
